@@ -99,7 +99,7 @@ class Enc:
                 if role == "c":
                     self.i += 1
                 self.skip_ty()
-            elif k == "fe":
+            elif k in ("fe", "fez"):
                 self.i += 1
                 self.skip_ty()
             elif k == "if":
@@ -275,6 +275,17 @@ class Enc:
                     out += b
                 if n == 0:
                     self.skip_ty()
+            elif k == "fez":
+                # compressed endless array: u32 decompressed size, zlib stream (never empty here: the library's own writer and reader
+                # disagree about empty payloads, a known finding outside this encoder's purpose)
+                import zlib
+                self.i += 1
+                start = self.i
+                payload = b""
+                for _ in range(1 + self.r.below(self.maxlen + 1)):
+                    self.i = start
+                    payload += self.ty(env)[0]
+                out += len(payload).to_bytes(4, "little") + zlib.compress(payload)
             elif k == "if":
                 var = int(self.nxt())
                 n = int(self.nxt())
